@@ -27,14 +27,18 @@ def coreMirrors : List String :=
 def ioItems : List String := ["Write", "Result", "IoSlice", "IoSliceMut", "ErrorKind"]
 def stdPathOk (p : String) : Bool :=
   match (HH.FactsLib.segsOf p).filter (· != "") with
-  | "std" :: "io" :: item :: rest => ioItems.contains item && (rest.isEmpty || item == "Write" || item == "ErrorKind")
+  | "std" :: "io" :: item :: rest =>
+    ioItems.contains item && (rest.isEmpty || item == "Write" || item == "ErrorKind" ||
+      -- the variant constructors of `io::Result<T>` (`::std::io::Result::Ok(..)`): constructing a `Result` allocates nothing
+      (item == "Result" && (rest == ["Ok"] || rest == ["Err"])))
   | "std" :: m :: _ => coreMirrors.contains m
   | _ => false
 theorem std_paths : (facts.all fun f => !(f.kind == "std_path" && !f.test) || stdPathOk f.detail) = true := by
   decide +kernel
 
 example : stdPathOk "::std::io::Write" = true ∧ stdPathOk "::std::fmt::Arguments" = true ∧ stdPathOk "::std::io::IoSlice" = true ∧
-    stdPathOk "std::env::var" = false ∧ stdPathOk "::std::io::Error::other" = false ∧ stdPathOk "std::vec::Vec" = false ∧ stdPathOk "std::error::Error" = true := by decide +kernel
+    stdPathOk "std::env::var" = false ∧ stdPathOk "::std::io::Error::other" = false ∧ stdPathOk "std::vec::Vec" = false ∧ stdPathOk "std::error::Error" = true ∧
+    stdPathOk "::std::io::Result::Ok" = true ∧ stdPathOk "::std::io::Result::unwrap" = false := by decide +kernel
 
 end HH.C18
 
